@@ -5,7 +5,7 @@
     before. All statements hold for every storage content (any key tree, any values), every
     combination of options, every grace period and interval, every fault plan and cancellation
     point. [file s k] is the value of the terminal key k. *)
-From CM Require Import Lib.Str Lib.CleanSyntax Gen.Consts Clean.Model Clean.Proofs.
+From CM Require Import Lib.Str Lib.CleanSyntax Gen.Consts Clean.Model Clean.Proofs Clean.Check Clean.SpecProofs.
 From Coq Require Import String Ascii.
 Open Scope Z_scope.
 
@@ -142,6 +142,32 @@ Theorem C18_sequence_safe : forall runs s0 k, k <> spec_last_clean ->
    exists r, In r runs /\ justified (r_opts r) (r_now r) s0 k = true).
 Proof. exact clean_seq_post. Qed.
 Print Assumptions C18_sequence_safe.
+
+(** ** the same, node by node (covers the directory nodes of the FileStorage flavour): a key
+    keeps its node; or is gone and justified; or was a directory node certificates/<issuer>/<site>
+    (certificates being cleaned) below which nothing is left; or is last_clean.json, written by a
+    successful Store call and not onto a directory *)
+Theorem C18_clean_post_nodes : forall e o now s0 k,
+  let s' := snd (clean e o now s0) in
+  lookup (sto s') k = lookup s0 k \/
+  (lookup (sto s') k = None /\ justified o now s0 k = true) \/
+  (lookup (sto s') k = None /\ lookup s0 k = Some Dir /\ site_folderb k = true /\ do_certs o = true /\
+   forall k', under k k' = true -> lookup (sto s') k' = None) \/
+  (k = spec_last_clean /\ lookup (sto s') k = Some (written now o) /\ stored_ok (lg s') = true /\
+   lookup s0 k <> Some Dir).
+Proof.
+  intros e o now s0 k. destruct (clean_post_nodes e o now s0 k) as [[E|N J|N D Sf Ho G]|E W St Nd]; auto 10.
+Qed.
+Print Assumptions C18_clean_post_nodes.
+
+(** ** the run-time monitor is the theorems' statement: for every input, the observation the
+    model itself produces (its result, its call log as a one-cleaner trace, its final storage)
+    passes [Check.spec_ok] -- the boolean that ./check evaluates on the implementation's
+    observations -- and [Check.replay] (the model<->implementation comparison) accepts it *)
+Theorem C18_model_satisfies_monitor : forall e o now s0 t,
+  spec_ok (model_case e o now s0 t) = true.
+Proof. exact model_satisfies_spec. Qed.
+Print Assumptions C18_model_satisfies_monitor.
 
 (** ** Examples: the hypotheses are satisfiable and the conclusions are not vacuous *)
 Fixpoint s2k (s : string) : str :=
